@@ -38,7 +38,7 @@ def run(ctx, scratch):
     rng = ctx.rng
     quick = ctx.tier == 'quick'
     nmax = 10 if quick else 30
-    reps = 3 if quick else 20
+    reps = 3 if quick else 8
     threads = [1, 4] if quick else [1, 2, 4, 16]
     workers = {t: Impl(scratch, threads=t) for t in threads}
     fresh = Impl(scratch, threads=threads[0])
